@@ -116,14 +116,15 @@ def checksumCalculation (size : Nat) : SM (List UInt8) := do
   match s.putReq with
   | none => throw .assertionError
   | some req =>
-    if s.p.metadataOnly then return [0, 0, 0, 0]
-    match req.src, s.p.remoteCfg with
-    | none, _ => throw .assertionError
-    | _, none => throw .assertionError
-    | some src, some rc =>
-      match Fs.calcChecksum s.fs (Checksum.CksType.ofNat rc.cks) src size s.p.segmentLen with
-      | .ok r => return r
-      | .error e => throw (Err.ofFs e)
+    if s.p.metadataOnly then pure [0, 0, 0, 0]
+    else
+      match req.src, s.p.remoteCfg with
+      | none, _ => throw .assertionError
+      | _, none => throw .assertionError
+      | some src, some rc =>
+        match Fs.calcChecksum s.fs (Checksum.CksType.ofNat rc.cks) src size s.p.segmentLen with
+        | .ok r => pure r
+        | .error e => throw (Err.ofFs e)
 
 /-- `_prepare_eof_pdu` (source.py:914-926) -/
 def prepareEofPdu (env : Env) (cks : List UInt8) : SM Unit := do
@@ -149,37 +150,42 @@ def startPositiveAckProcedure (env : Env) : SM Unit := do
 def handleEofSent (env : Env) (cancelEof : Bool) : SM Unit := do
   if (← transmissionMode) = some .ack then
     startPositiveAckProcedure env
-    return ()
-  if cancelEof then
+  else if cancelEof then
     resetInternal false
-    return ()
-  let p ← getP
-  if p.closure then
-    if p.remoteCfg.isNone then throw .assertionError
-    modP fun p => { p with checkTimer := some ⟨env.now, env.cfg.chkMs⟩ }
-    modify fun s => { s with step := .WAITING_FOR_FINISHED }
   else
-    modify fun s => { s with step := .NOTICE_OF_COMPLETION }
+    let p ← getP
+    if p.closure then
+      if p.remoteCfg.isNone then throw .assertionError
+      else
+        modP fun p => { p with checkTimer := some ⟨env.now, env.cfg.chkMs⟩ }
+        modify fun s => { s with step := .WAITING_FOR_FINISHED }
+    else
+      modify fun s => { s with step := .NOTICE_OF_COMPLETION }
+
+/-- is an EOF (cancel) exchange in progress?  (`cond_code_eof` set and not No error) -/
+def cancelInProgress (p : Params) : Option Nat :=
+  match p.condCodeEof with
+  | some c => if c ≠ ccNoError then some c else none
+  | none => none
 
 /-- `_notice_of_cancellation` (source.py:954-976): returns whether the fault declaration goes on
 to report the fault -/
 def noticeOfCancellation (env : Env) (cond : Nat) : SM Bool := do
   let p ← getP
-  match p.condCodeEof with
+  match cancelInProgress p with
   | some c =>
-    if c ≠ ccNoError then
-      match p.tid with
-      | none => throw .assertionError
-      | some tid =>
-        modify fun s => { s with flts := s.flts ++ [⟨fhAbandon, tid, c, p.progress⟩] }
-        abandonTransaction
-        return false
-  | none => pure ()
-  modP fun p => { p with condCodeEof := some cond }
-  let cks ← checksumCalculation (← getP).progress
-  prepareEofPdu env cks
-  handleEofSent env true
-  return true
+    match p.tid with
+    | none => throw .assertionError
+    | some tid =>
+      modify fun s => { s with flts := s.flts ++ [⟨fhAbandon, tid, c, p.progress⟩] }
+      abandonTransaction
+      pure false
+  | none =>
+    modP fun p => { p with condCodeEof := some cond }
+    let cks ← checksumCalculation (← getP).progress
+    prepareEofPdu env cks
+    handleEofSent env true
+    pure true
 
 /-- `_declare_fault` (source.py:938-952) -/
 def declareFault (env : Env) (cond : Nat) : SM Unit := do
@@ -189,14 +195,13 @@ def declareFault (env : Env) (cond : Nat) : SM Unit := do
   match s.p.tid with
   | none => throw .assertionError
   | some tid =>
-    if fh = some fhCancel then
-      let goOn ← noticeOfCancellation env cond
-      if !goOn then return ()
-    else if fh = some fhSuspend then pure ()
-    else if fh = some fhAbandon then abandonTransaction
-    match fh with
-    | none => throw .valueError
-    | some code => modify fun s => { s with flts := s.flts ++ [⟨code, tid, cond, progress⟩] }
+    let goOn ← if fh = some fhCancel then noticeOfCancellation env cond
+               else if fh = some fhAbandon then do abandonTransaction; pure true
+               else pure true
+    if goOn then
+      match fh with
+      | none => throw .valueError
+      | some code => modify fun s => { s with flts := s.flts ++ [⟨code, tid, cond, progress⟩] }
 
 /-- `_prepare_metadata_pdu` (source.py:632-667) -/
 def prepareMetadataPdu : SM Unit := do
@@ -228,15 +233,17 @@ def prepareFileDataPdu (off len : Nat) : SM Unit := do
       | .error e => throw (Err.ofFs e)
       | .ok data => addPacket (mkFd s.p.conf off data)
 
+/-- the `read_len` computed by `_prepare_progressing_file_data_pdu` -/
+def readLen (p : Params) : Nat :=
+  if p.fileSize < p.segmentLen then p.fileSize
+  else if p.progress + p.segmentLen > p.fileSize then p.fileSize - p.progress
+  else p.segmentLen
+
 /-- `_prepare_progressing_file_data_pdu` (source.py:883-896) -/
 def prepareProgressingFileDataPdu : SM Unit := do
   let p ← getP
-  let readLen :=
-    if p.fileSize < p.segmentLen then p.fileSize
-    else if p.progress + p.segmentLen > p.fileSize then p.fileSize - p.progress
-    else p.segmentLen
-  prepareFileDataPdu p.progress readLen
-  modP fun p => { p with progress := p.progress + readLen }
+  prepareFileDataPdu p.progress (readLen p)
+  modP fun p => { p with progress := p.progress + readLen p }
 
 /-- the `while missing_chunk_len > 0` loop of `_handle_segment_req`; fuel = the missing length -/
 def segmentChunks (segLen : Nat) : Nat → Nat → Nat → SM Unit
@@ -259,14 +266,21 @@ def handleSegmentReq (req : Nat × Nat) : SM Unit := do
     if req.2 > p.progress then throw .invalidNakPdu
     segmentChunks p.segmentLen (req.2 - req.1) req.1 (req.2 - req.1)
 
+/-- the `for segment_req in nak_pdu.segment_requests` loop -/
+def handleSegmentReqs : List (Nat × Nat) → SM Unit
+  | [] => pure ()
+  | r :: rest => do
+    handleSegmentReq r
+    handleSegmentReqs rest
+
 /-- `__handle_retransmission` (source.py:698-709) -/
 def handleRetransmission (pkt : Option Pdu) : SM Bool := do
   match pkt with
   | some (.nak _ _ _ reqs) =>
-    for r in reqs do handleSegmentReq r
+    handleSegmentReqs reqs
     modify fun s => { s with stepBefore := some s.step, step := .RETRANSMITTING }
-    return true
-  | _ => return false
+    pure true
+  | _ => pure false
 
 /-- `_handle_positive_ack_procedures` (source.py:755-770) -/
 def handlePositiveAckProcedures (env : Env) : SM Unit := do
@@ -278,24 +292,25 @@ def handlePositiveAckProcedures (env : Env) : SM Unit := do
     if t.timedOut env.now then
       if p.ackCounter + 1 ≥ rc.ackLim then
         declareFault env ccPositiveAckLimit
-        return ()
-      modP fun p => { p with ackTimer := some (t.reset env.now), ackCounter := p.ackCounter + 1 }
-      let cks ← checksumCalculation p.fileSize
-      prepareEofPdu env cks
+      else
+        modP fun p => { p with ackTimer := some (t.reset env.now), ackCounter := p.ackCounter + 1 }
+        let cks ← checksumCalculation p.fileSize
+        prepareEofPdu env cks
 
 /-- `_handle_waiting_for_ack` (source.py:730-753) -/
 def handleWaitingForAck (env : Env) (pkt : Option Pdu) : SM Unit := do
-  if ← handleRetransmission pkt then return ()
-  match pkt with
-  | some (.ack _ ofDir _ _) =>
-    if ofDir = dtEof then modify fun s => { s with step := .WAITING_FOR_FINISHED }
-  | some (.fd ..) => throw .attributeError     -- `to_ack_pdu` of a File Data holder; never admitted
-  | _ => handlePositiveAckProcedures env
+  if ← handleRetransmission pkt then pure ()
+  else
+    match pkt with
+    | some (.ack _ ofDir _ _) =>
+      if ofDir = dtEof then modify fun s => { s with step := .WAITING_FOR_FINISHED }
+    | some (.fd ..) => throw .attributeError     -- `to_ack_pdu` of a File Data holder; never admitted
+    | _ => handlePositiveAckProcedures env
 
 /-- `_handle_wait_for_finish` (source.py:772-791) -/
 def handleWaitForFinish (env : Env) (pkt : Option Pdu) : SM Unit := do
-  if (← transmissionMode) = some .ack then
-    if ← handleRetransmission pkt then return ()
+  let retrans ← if (← transmissionMode) = some .ack then handleRetransmission pkt else pure false
+  if retrans then pure () else
   match pkt with
   | some (.fin _ fp) =>
     modP fun p => { p with finishedParams := some fp }
@@ -323,19 +338,21 @@ def noticeOfCompletion (env : Env) : SM Unit := do
 
 /-- `_sending_file_data_fsm` (source.py:669-696) -/
 def sendingFileDataFsm (pkt : Option Pdu) : SM Bool := do
-  if (← transmissionMode) = some .ack then
-    if ← handleRetransmission pkt then return true
-  let p ← getP
-  if !p.metadataOnly && p.progress < p.fileSize then
-    prepareProgressingFileDataPdu
-    return true
-  if p.emptyFile then
-    modP fun p => { p with condCodeEof := some ccNoError }
-    modify fun s => { s with step := .SENDING_EOF }
-  else if p.metadataOnly then
-    if p.closure then modify fun s => { s with step := .WAITING_FOR_FINISHED }
-    else modify fun s => { s with step := .NOTICE_OF_COMPLETION }
-  return false
+  let retrans ← if (← transmissionMode) = some .ack then handleRetransmission pkt else pure false
+  if retrans then pure true
+  else
+    let p ← getP
+    if !p.metadataOnly && p.progress < p.fileSize then
+      prepareProgressingFileDataPdu
+      pure true
+    else
+      if p.emptyFile then
+        modP fun p => { p with condCodeEof := some ccNoError }
+        modify fun s => { s with step := .SENDING_EOF }
+      else if p.metadataOnly then
+        if p.closure then modify fun s => { s with step := .WAITING_FOR_FINISHED }
+        else modify fun s => { s with step := .NOTICE_OF_COMPLETION }
+      pure false
 
 /-- `_transaction_start` (source.py:530-542) with `_prepare_file_params`, `_prepare_pdu_conf`,
 `_get_next_transfer_seq_num`, `_calculate_max_file_seg_len` -/
@@ -403,29 +420,45 @@ def fsmAdvancementAfterPacketsWereSent : SM Unit := do
   | .SENDING_ACK_OF_FINISHED => set { s with step := .NOTICE_OF_COMPLETION }
   | _ => pure ()
 
-/-- `_fsm_non_idle` (source.py:501-528) -/
-def fsmNonIdle (env : Env) (pkt : Option Pdu) : SM Unit := do
-  fsmAdvancementAfterPacketsWereSent
-  if (← get).putReq.isNone then return ()
-  if (← get).step = .IDLE then modify fun s => { s with step := .TRANSACTION_START }
-  if (← get).step = .TRANSACTION_START then
-    transactionStart env
-    modify fun s => { s with step := .SENDING_METADATA }
-  if (← get).step = .SENDING_METADATA then
-    prepareMetadataPdu
-    return ()
-  if (← get).step = .SENDING_FILE_DATA then
-    if ← sendingFileDataFsm pkt then return ()
+/-! `_fsm_non_idle` (source.py:499-526) is a sequence of independent `if`s, some of which return
+early.  It is written here as a chain of tail functions (`fsmFromX` = the rest of the method from
+the test of step X on), which is the same control flow without duplicated continuations. -/
+
+def fsmFromNoticeOfCompletion (env : Env) : SM Unit := do
+  if (← get).step = .NOTICE_OF_COMPLETION then noticeOfCompletion env
+
+def fsmFromWaitingForFinished (env : Env) (pkt : Option Pdu) : SM Unit := do
+  if (← get).step = .WAITING_FOR_FINISHED then handleWaitForFinish env pkt
+  fsmFromNoticeOfCompletion env
+
+def fsmFromWaitingForEofAck (env : Env) (pkt : Option Pdu) : SM Unit := do
+  if (← get).step = .WAITING_FOR_EOF_ACK then handleWaitingForAck env pkt
+  fsmFromWaitingForFinished env pkt
+
+def fsmFromSendingEof (env : Env) (pkt : Option Pdu) : SM Unit := do
   if (← get).step = .SENDING_EOF then
     let cks ← checksumCalculation (← getP).fileSize
     prepareEofPdu env cks
     handleEofSent env false
-  if (← get).step = .WAITING_FOR_EOF_ACK then
-    handleWaitingForAck env pkt
-  if (← get).step = .WAITING_FOR_FINISHED then
-    handleWaitForFinish env pkt
-  if (← get).step = .NOTICE_OF_COMPLETION then
-    noticeOfCompletion env
+  fsmFromWaitingForEofAck env pkt
+
+def fsmFromSendingFileData (env : Env) (pkt : Option Pdu) : SM Unit := do
+  if (← get).step = .SENDING_FILE_DATA then
+    if ← sendingFileDataFsm pkt then pure ()
+    else fsmFromSendingEof env pkt
+  else fsmFromSendingEof env pkt
+
+/-- `_fsm_non_idle` -/
+def fsmNonIdle (env : Env) (pkt : Option Pdu) : SM Unit := do
+  fsmAdvancementAfterPacketsWereSent
+  if (← get).putReq.isNone then pure ()
+  else do
+    if (← get).step = .IDLE then modify fun s => { s with step := .TRANSACTION_START }
+    if (← get).step = .TRANSACTION_START then
+      transactionStart env
+      modify fun s => { s with step := .SENDING_METADATA }
+    if (← get).step = .SENDING_METADATA then prepareMetadataPdu
+    else fsmFromSendingFileData env pkt
 
 /-- `_check_inserted_packet` (source.py:383-428) -/
 def checkInsertedPacket (env : Env) (pdu : Pdu) : SM Unit := do
@@ -451,40 +484,41 @@ def stateMachine (env : Env) (pkt : Option Pdu) : SM Unit := do
   match pkt with
   | some pdu => checkInsertedPacket env pdu
   | none => pure ()
-  if (← get).state = .idle then return ()
-  fsmNonIdle env pkt
+  if (← get).state = .idle then pure ()
+  else fsmNonIdle env pkt
 
 /-- `put_request` (source.py:308-356) -/
 def putRequest (env : Env) (req : PutReq) : SM Bool := do
   let s ← get
-  if s.state ≠ .idle then return false
-  set { s with putReq := some req }
-  match req.src with
-  | some src => if !Fs.exists' s.fs src then throw .sourceFileDoesNotExist
-  | none => pure ()
-  let rc := lookupRemote env.cfg.remotes req.destId.val
-  modP fun p => { p with remoteCfg := rc }
-  match rc with
-  | none => throw .noRemoteEntityCfg
-  | some rc =>
-    modP fun p => { p with conf := { p.conf with dst := req.destId } }
-    modify fun s => { s with numReady := 0, state := .busy }
-    -- _setup_transmission_params
-    modP fun p => { p with conf := { p.conf with mode := req.mode.getD rc.mode }, closure := req.closure.getD rc.closure }
-    return true
+  if s.state ≠ .idle then pure false
+  else
+    set { s with putReq := some req }
+    if req.src.isSome && !Fs.exists' s.fs (req.src.getD "") then throw .sourceFileDoesNotExist
+    else
+      let rc := lookupRemote env.cfg.remotes req.destId.val
+      modP fun p => { p with remoteCfg := rc }
+      match rc with
+      | none => throw .noRemoteEntityCfg
+      | some rc =>
+        modP fun p => { p with conf := { p.conf with dst := req.destId } }
+        modify fun s => { s with numReady := 0, state := .busy }
+        -- _setup_transmission_params
+        modP fun p => { p with conf := { p.conf with mode := req.mode.getD rc.mode }, closure := req.closure.getD rc.closure }
+        pure true
 
 /-- `cancel_request` (source.py:358-381) -/
 def cancelRequest (env : Env) (tid : Tid) : SM Bool := do
   let s ← get
-  if s.state = .idle then return false
-  if s.numReady > 0 then throw .unretrievedPdus
-  match s.p.tid with
-  | some t =>
-    if t.src.val = tid.src.val && t.seq.val = tid.seq.val then
-      let _ ← noticeOfCancellation env ccCancelRequest
-      return true
-    else return false
-  | none => return false
+  if s.state = .idle then pure false
+  else if s.numReady > 0 then throw .unretrievedPdus
+  else
+    match s.p.tid with
+    | some t =>
+      if t.src.val = tid.src.val && t.seq.val = tid.seq.val then
+        let _ ← noticeOfCancellation env ccCancelRequest
+        pure true
+      else pure false
+    | none => pure false
 
 /-- `get_next_packet` (source.py:430-435) -/
 def getNextPacket : SM (Option Pdu) := do
